@@ -68,7 +68,7 @@ impl Property for C13 {
         ]
     }
     fn expected_probes(&self) -> Vec<&'static str> {
-        vec!["recorder_short_writes", "recorder_error", "recorder_write_zero", "load_same_emulator", "load_fresh_dirty", "locked_state", "sp_in_screen", "twin_continuation", "save_failed_cleanly"]
+        vec!["recorder_short_writes", "recorder_error", "recorder_write_zero", "load_same_emulator", "load_fresh_dirty", "locked_state", "sp_in_screen", "twin_continuation", "save_failed_cleanly", "iff1_differs_from_iff2_at_save"]
     }
 
     fn gen(&self, rng: &mut Rng, _tier: Tier, _idx: u64) -> Scenario {
@@ -84,6 +84,7 @@ impl Property for C13 {
         sc.set("dirt", rng.range(0, 7));
         sc.set("more_frames", rng.range(0, 3));
         sc.set("chunk", *rng.pick(&[0i64, 1, 1000, 16384]));
+        sc.set("iff_differ", rng.chance(1, 4) as i64);
         sc
     }
 
@@ -103,7 +104,19 @@ impl Property for C13 {
         if sc.get("sp_class") == 0 {
             ctx.probe("sp_in_screen");
         }
-        s.cpu.iff1 = s.cpu.iff2; // SNA carries IFF2 only
+        // SNA carries IFF2 only. In a share of the runs IFF1 differs from IFF2 at save time (the state
+        // inside an NMI routine): IFF2 must still round-trip; the twin continuation is skipped then.
+        let iff_differ = sc.get("iff_differ") != 0;
+        if iff_differ {
+            s.cpu.iff1 = !s.cpu.iff2;
+            // keep the idle program idle: IFF1 set is only safe with the own IM 2 handler
+            if s.cpu.iff1 && s.cpu.im != 2 {
+                s.cpu.im = 2;
+                s.cpu.i = 0xBE;
+            }
+        } else {
+            s.cpu.iff1 = s.cpu.iff2;
+        }
         if s.port_7ffd & 0x20 != 0 {
             ctx.probe("locked_state");
         }
@@ -288,6 +301,11 @@ impl Property for C13 {
                     return Err(Fail::new("C13.ram", &format!("machine={},dirt={},bank={}", machine, dname, b), format!("RAM bank {} offset {:04X} is {:02X} after the round trip, it was {:02X}", b, off, page[off], saved_ram[i][off])));
                 }
             }
+        }
+        if iff_differ {
+            ctx.probe("iff1_differs_from_iff2_at_save");
+            ctx.units += 1;
+            return Ok(());
         }
         // ---- twin continuation: saved machine vs restored machine
         let mut restored_owner;
